@@ -7,4 +7,542 @@ import BitstringModel.Proofs.Basic
 namespace BM.C05
 open BM
 
+theorem foldl_append_flatten (bsl : List Bits) (acc : Bits) :
+    bsl.foldl (· ++ ·) acc = acc ++ bsl.flatten := by
+  induction bsl generalizing acc with
+  | nil => simp
+  | cons x xs ih => simp [ih, List.append_assoc]
+
+/-- loop invariant of the token loop -/
+theorem packLoop_spec (kw : Kw) (ts : List Tok) (vs : List Val) (bsl : List Bits) :
+    (match packLoop kw ts vs bsl with
+     | .error e => (Except.error e : Except Err Bits)
+     | .ok (bsl', rest) => if !rest.isEmpty then .error .value else .ok (bsl'.foldl (· ++ ·) []))
+    = (packT kw ts vs).map (fun b => bsl.flatten ++ b) := by
+  induction ts generalizing vs bsl with
+  | nil =>
+    cases vs with
+    | nil => simp [packLoop, packT, foldl_append_flatten, Except.map]
+    | cons v vs => simp [packLoop, packT, Except.map]
+  | cons t ts ih =>
+    unfold packLoop packT
+    cases hn : t.needsValue kw with
+    | true =>
+      simp only [if_true]
+      cases hr : resolveLen kw t.len with
+      | error e => simp [Except.map]
+      | ok l =>
+        cases vs with
+        | nil => simp [Except.map]
+        | cons v vs' =>
+          simp only
+          cases hb : tokBits kw t (some v) with
+          | error e => simp [Except.map]
+          | ok b =>
+            simp only
+            rw [ih]
+            cases packT kw ts vs' <;> simp [Except.map, List.append_assoc]
+    | false =>
+      simp only [Bool.false_eq_true, if_false]
+      cases hb : tokBits kw t none with
+      | error e => simp [Except.map]
+      | ok b =>
+        simp only
+        rw [ih]
+        cases packT kw ts vs <;> simp [Except.map, List.append_assoc]
+
+theorem packT_eq_parts' (kw : Kw) (ts : List Tok) (vs : List Val) :
+    packT kw ts vs = (packParts kw ts vs).map List.flatten := by
+  induction ts generalizing vs with
+  | nil => cases vs <;> simp [packT, packParts, Except.map]
+  | cons t ts ih =>
+    unfold packT packParts
+    cases hn : t.needsValue kw with
+    | true =>
+      simp only [if_true]
+      cases hr : resolveLen kw t.len with
+      | error e => simp [Except.map]
+      | ok l =>
+        cases vs with
+        | nil => simp [Except.map]
+        | cons v vs' =>
+          simp only
+          cases hb : tokBits kw t (some v) with
+          | error e => simp [Except.map]
+          | ok b =>
+            simp only [ih]
+            cases packParts kw ts vs' <;> simp [Except.map]
+    | false =>
+      simp only [Bool.false_eq_true, if_false]
+      cases hb : tokBits kw t none with
+      | error e => simp [Except.map]
+      | ok b =>
+        simp only [ih]
+        cases packParts kw ts vs <;> simp [Except.map]
+
+
+theorem arity_cons (kw : Kw) (t : Tok) (ts : List Tok) :
+    arity kw (t :: ts) = (if t.needsValue kw then 1 else 0) + arity kw ts := by
+  unfold arity
+  cases h : t.needsValue kw <;> simp [List.filter_cons, h] <;> omega
+
+theorem arity_append (kw : Kw) (a b : List Tok) : arity kw (a ++ b) = arity kw a + arity kw b := by
+  simp [arity, List.filter_append]
+
+/-- unfolding of `packT` on a value-taking token that goes through -/
+theorem packT_ok_cons (kw : Kw) (t : Tok) (ts : List Tok) (vs : List Val) (b : Bits)
+    (h : packT kw (t :: ts) vs = .ok b) :
+    (t.needsValue kw = true ∧ ∃ v vs' l tb r, vs = v :: vs' ∧ resolveLen kw t.len = .ok l ∧ tokBits kw t (some v) = .ok tb ∧
+        packT kw ts vs' = .ok r ∧ b = tb ++ r) ∨
+    (t.needsValue kw = false ∧ ∃ tb r, tokBits kw t none = .ok tb ∧ packT kw ts vs = .ok r ∧ b = tb ++ r) := by
+  unfold packT at h
+  cases hn : t.needsValue kw with
+  | true =>
+    left
+    simp only [hn, if_true] at h
+    cases hr : resolveLen kw t.len with
+    | error e => simp [hr] at h
+    | ok l =>
+      simp only [hr] at h
+      cases vs with
+      | nil => simp at h
+      | cons v vs' =>
+        simp only at h
+        cases hb : tokBits kw t (some v) with
+        | error e => simp [hb] at h
+        | ok tb =>
+          simp only [hb] at h
+          cases hp : packT kw ts vs' with
+          | error e => simp [hp, Except.map] at h
+          | ok r =>
+            simp only [hp, Except.map, Except.ok.injEq] at h
+            exact ⟨rfl, v, vs', l, tb, r, rfl, by first | rfl | assumption, by first | rfl | assumption, by first | rfl | assumption, h.symm⟩
+  | false =>
+    right
+    simp only [hn, Bool.false_eq_true, if_false] at h
+    cases hb : tokBits kw t none with
+    | error e => simp [hb] at h
+    | ok tb =>
+      simp only [hb] at h
+      cases hp : packT kw ts vs with
+      | error e => simp [hp, Except.map] at h
+      | ok r =>
+        simp only [hp, Except.map, Except.ok.injEq] at h
+        exact ⟨rfl, tb, r, by first | rfl | assumption, by first | rfl | assumption, h.symm⟩
+
+theorem packT_cons_needs (kw : Kw) (t : Tok) (ts : List Tok) (v : Val) (vs : List Val) (l : Option Int) (tb : Bits)
+    (hn : t.needsValue kw = true) (hr : resolveLen kw t.len = .ok l) (hb : tokBits kw t (some v) = .ok tb) :
+    packT kw (t :: ts) (v :: vs) = (packT kw ts vs).map (tb ++ ·) := by
+  rw [packT.eq_def]; simp only [hn, if_true, hr, hb]
+
+theorem packT_cons_noneed (kw : Kw) (t : Tok) (ts : List Tok) (vs : List Val) (tb : Bits)
+    (hn : t.needsValue kw = false) (hb : tokBits kw t none = .ok tb) :
+    packT kw (t :: ts) vs = (packT kw ts vs).map (tb ++ ·) := by
+  rw [packT.eq_def]; simp only [hn, Bool.false_eq_true, if_false, hb]
+
+theorem pack_ok_arity' (kw : Kw) (ts : List Tok) (vs : List Val) (b : Bits) (h : packT kw ts vs = .ok b) :
+    vs.length = arity kw ts := by
+  induction ts generalizing vs b with
+  | nil => cases vs <;> simp_all [packT, arity]
+  | cons t ts ih =>
+    rw [arity_cons]
+    rcases packT_ok_cons kw t ts vs b h with ⟨hn, v, vs', l, tb, r, rfl, -, -, hp, -⟩ | ⟨hn, tb, r, -, hp, -⟩
+    · simp [hn, ih vs' r hp]; omega
+    · simp [hn, ih vs r hp]
+
+theorem pack_too_few' (kw : Kw) (ts : List Tok) (vs : List Val) (b : Bits) (h : packT kw ts vs = .ok b)
+    (k : Nat) (hk : k < vs.length) : packT kw ts (vs.take k) = .error .value := by
+  induction ts generalizing vs b k with
+  | nil => cases vs <;> simp_all [packT]
+  | cons t ts ih =>
+    rcases packT_ok_cons kw t ts vs b h with ⟨hn, v, vs', l, tb, r, rfl, hr, hb, hp, -⟩ | ⟨hn, tb, r, hb, hp, -⟩
+    · cases k with
+      | zero => rw [packT.eq_def]; simp [hn, hr]
+      | succ k =>
+        rw [List.take_succ_cons, packT_cons_needs kw t ts v _ l tb hn hr hb,
+          ih vs' r hp k (by simpa using hk)]
+        rfl
+    · rw [packT_cons_noneed kw t ts _ tb hn hb, ih vs r hp k hk]; rfl
+
+theorem pack_too_many' (kw : Kw) (ts : List Tok) (vs : List Val) (b : Bits) (h : packT kw ts vs = .ok b)
+    (w : Val) (ws : List Val) : packT kw ts (vs ++ w :: ws) = .error .value := by
+  induction ts generalizing vs b with
+  | nil => cases vs <;> simp_all [packT]
+  | cons t ts ih =>
+    rcases packT_ok_cons kw t ts vs b h with ⟨hn, v, vs', l, tb, r, rfl, hr, hb, hp, -⟩ | ⟨hn, tb, r, hb, hp, -⟩
+    · rw [List.cons_append, packT_cons_needs kw t ts v _ l tb hn hr hb, ih vs' r hp]; rfl
+    · rw [packT_cons_noneed kw t ts _ tb hn hb, ih vs r hp]; rfl
+
+theorem pack_append' (kw : Kw) (f1 f2 : List Tok) (v1 v2 : List Val) (h : v1.length = arity kw f1) :
+    packT kw (f1 ++ f2) (v1 ++ v2) =
+      (packT kw f1 v1).bind fun b1 => (packT kw f2 v2).map fun b2 => b1 ++ b2 := by
+  induction f1 generalizing v1 with
+  | nil =>
+    have : v1 = [] := by simpa [arity] using h
+    subst this
+    have e0 : packT kw [] [] = .ok [] := by simp [packT]
+    rw [e0]
+    cases h2 : packT kw f2 v2 <;> simp [Except.bind, Except.map, h2]
+  | cons t ts ih =>
+    rw [arity_cons] at h
+    rw [List.cons_append]
+    cases hn : t.needsValue kw with
+    | true =>
+      simp only [hn, if_true] at h
+      cases v1 with
+      | nil => simp at h; omega
+      | cons v v1' =>
+        have h' : v1'.length = arity kw ts := by simp at h; omega
+        rw [List.cons_append]
+        conv => lhs; rw [packT.eq_def]
+        conv => rhs; rw [packT.eq_def]
+        simp only [hn, if_true]
+        cases hr : resolveLen kw t.len with
+        | error e => simp [Except.bind]
+        | ok l =>
+          simp only
+          cases hb : tokBits kw t (some v) with
+          | error e => simp [Except.bind]
+          | ok tb =>
+            simp only [ih v1' h']
+            cases packT kw ts v1' <;> cases packT kw f2 v2 <;> simp [Except.bind, Except.map, List.append_assoc]
+    | false =>
+      simp only [hn, Bool.false_eq_true, if_false, Nat.zero_add] at h
+      conv => lhs; rw [packT.eq_def]
+      conv => rhs; rw [packT.eq_def]
+      simp only [hn, Bool.false_eq_true, if_false]
+      cases hb : tokBits kw t none with
+      | error e => simp [Except.bind]
+      | ok tb =>
+        simp only [ih v1 h]
+        cases packT kw ts v1 <;> cases packT kw f2 v2 <;> simp [Except.bind, Except.map, List.append_assoc]
+
+theorem pack_append_ok' (kw : Kw) (f1 f2 : List Tok) (v1 v2 : List Val) (b1 b2 : Bits)
+    (h1 : packT kw f1 v1 = .ok b1) (h2 : packT kw f2 v2 = .ok b2) :
+    packT kw (f1 ++ f2) (v1 ++ v2) = .ok (b1 ++ b2) := by
+  rw [pack_append' kw f1 f2 v1 v2 (pack_ok_arity' kw f1 v1 b1 h1), h1, h2]; rfl
+
+theorem pack_split' (kw : Kw) (f1 f2 : List Tok) (vs : List Val) (b : Bits)
+    (h : packT kw (f1 ++ f2) vs = .ok b) :
+    ∃ b1 b2, packT kw f1 (vs.take (arity kw f1)) = .ok b1 ∧ packT kw f2 (vs.drop (arity kw f1)) = .ok b2 ∧ b = b1 ++ b2 := by
+  have hl := pack_ok_arity' kw _ vs b h
+  rw [arity_append] at hl
+  have hlen : (vs.take (arity kw f1)).length = arity kw f1 := by simp; omega
+  have := pack_append' kw f1 f2 (vs.take (arity kw f1)) (vs.drop (arity kw f1)) hlen
+  rw [List.take_append_drop, h] at this
+  cases h1 : packT kw f1 (vs.take (arity kw f1)) with
+  | error e => simp [h1, Except.bind] at this
+  | ok b1 =>
+    cases h2 : packT kw f2 (vs.drop (arity kw f1)) with
+    | error e => simp [h1, h2, Except.bind, Except.map] at this
+    | ok b2 =>
+      simp only [h1, h2, Except.bind, Except.map, Except.ok.injEq] at this
+      exact ⟨b1, b2, rfl, rfl, this⟩
+
+theorem pack_rep_values' (kw : Kw) (ts : List Tok) (vss : List (List Val)) (bs : List Bits)
+    (h : List.Forall₂ (fun vs b => packT kw ts vs = .ok b) vss bs) :
+    packT kw (List.replicate vss.length ts).flatten vss.flatten = .ok bs.flatten := by
+  induction h with
+  | nil => simp [packT]
+  | cons hab _ ih =>
+    simp only [List.length_cons, List.replicate_succ, List.flatten_cons]
+    exact pack_append_ok' kw _ _ _ _ _ _ hab ih
+
+theorem pack_rep' (kw : Kw) (ts : List Tok) (vs : List Val) (b : Bits) (h : packT kw ts vs = .ok b) (n : Nat) :
+    packT kw (List.replicate n ts).flatten (List.replicate n vs).flatten = .ok (List.replicate n b).flatten := by
+  induction n with
+  | zero => simp [packT]
+  | succ n ih =>
+    simp only [List.replicate_succ, List.flatten_cons]
+    exact pack_append_ok' kw _ _ _ _ _ _ h ih
+
+theorem getDtypeK_some (k : Kind) (l : Int) (d : DT) (h : getDtypeK k (some l) = .ok d) : d = ⟨k, some l⟩ := by
+  unfold getDtypeK at h
+  simp only at h
+  split at h
+  · cases h
+  · split at h
+    · cases h
+    · cases h; rfl
+
+theorem bitstoreFromToken_len (rec : Str → Except Err Bits) (name : Str) (l : Int) (v : Option Val) (b : Bits) (k : Kind)
+    (hlit : literalNames.contains name = false) (hk : kindOfName (String.ofList name) = .ok k)
+    (h : bitstoreFromToken rec name (some l) v = .ok b) : (b.length : Int) = l * k.mult := by
+  unfold bitstoreFromToken at h
+  simp only [hlit, Bool.false_eq_true, if_false, mkDtype, getDtype, hk] at h
+  cases hd : getDtypeK k (some l) with
+  | error e => simp [hd] at h
+  | ok d =>
+    have := getDtypeK_some k l d hd
+    subst this
+    simp only [hd] at h
+    split at h
+    · cases h
+    · cases hb : buildDT rec ⟨k, some l⟩ v with
+      | error e => simp [hb] at h
+      | ok b' =>
+        simp only [hb, DT.bitlen, Option.map] at h
+        split at h
+        · cases h
+        · cases h
+          rename_i hne
+          simpa using hne
+
+theorem tokBits_declared_length' (kw : Kw) (t : Tok) (v : Option Val) (b : Bits) (n : Int)
+    (h : tokBits kw t v = .ok b) (hn : declLen kw t = some n) : (b.length : Int) = n := by
+  unfold declLen at hn
+  split at hn
+  · cases hn
+  · rename_i hnd
+    have hnd' : ¬ (t.isDict kw = true) ∧ literalNames.contains t.name = false := by
+      constructor
+      · intro h; exact hnd (Or.inl h)
+      · cases hc : literalNames.contains t.name
+        · rfl
+        · exact absurd (Or.inr hc) hnd
+    split at hn
+    · rename_i l k hr hk
+      cases hn
+      unfold tokBits at h
+      have hdict : ¬ (kw.has t.name = true ∧ t.len.isNone = true ∧ t.val.isNone = true) := by
+        intro ⟨a, b, c⟩; apply hnd'.1; simp [Tok.isDict, a, b, c]
+      simp only [hdict, if_false, hr] at h
+      split at h
+      · rename_i hbits
+        have : k = .bits := by
+          rw [hbits] at hk
+          have : kindOfName (String.ofList "bits".toList) = .ok .bits := by decide
+          rw [this] at hk; cases hk; rfl
+        subst this
+        split at h
+        · cases h
+        · split at h
+          · cases h
+          · rename_i bb hb
+            split at h
+            · cases h
+            · cases h; rename_i hne; simp only [Kind.mult]; simp at hne; omega
+      · exact bitstoreFromToken_len _ _ _ _ _ _ hnd'.2 hk h
+    · cases hn
+
+theorem tokBits_plain_fixed (kw : Kw) (name : Str) (n : Int) (v : Val) (k : Kind)
+    (hb : (name = "bits".toList) = False) (hlit : literalNames.contains name = false)
+    (hk : kindOfName (String.ofList name) = .ok k) (hal : k.allows n = true) (hvar : k.variable = false) :
+    tokBits kw ⟨name, some (.int n), none⟩ (some v) =
+      match buildDT strToBits ⟨k, some n⟩ (some v) with
+      | .error e => .error e
+      | .ok b => if (b.length : Int) ≠ n * k.mult then .error .value else .ok b := by
+  unfold tokBits
+  simp only [Option.isNone_some, Bool.false_eq_true, and_false, false_and, if_false, resolveLen, resolveVal, hb,
+    bitstoreFromToken, hlit, mkDtype, getDtype, hk, getDtypeK, hal, hvar, Bool.not_true, Option.isNone_some]
+  cases buildDT strToBits ⟨k, some n⟩ (some v) <;> simp [DT.bitlen]
+
+theorem uint_out_of_range' (kw : Kw) (n : Nat) (i : Int) (h : i < 0 ∨ (2 : Int) ^ n ≤ i) :
+    tokBits kw ⟨"uint".toList, some (.int n), none⟩ (some (.int i)) = .error .value := by
+  rw [tokBits_plain_fixed kw _ _ _ .uint (by decide) (by decide) (by decide) (by simp [Kind.allows]) (by rfl)]
+  have hm : Kind.uint.mult = 1 := rfl
+  have h2 : (i < 0 ∨ i ≥ 2 ^ n) := by omega
+  by_cases hn : n = 0
+  · simp [buildDT, setFn, DT.bitlen, buildInt, hm, hn]
+  · simp [buildDT, setFn, DT.bitlen, buildInt, valToInt, hm, int2bits, hn, h2]
+
+theorem int_out_of_range' (kw : Kw) (n : Nat) (i : Int) (h : i < -((2 : Int) ^ (n - 1)) ∨ (2 : Int) ^ (n - 1) ≤ i) :
+    tokBits kw ⟨"int".toList, some (.int n), none⟩ (some (.int i)) = .error .value := by
+  rw [tokBits_plain_fixed kw _ _ _ .int (by decide) (by decide) (by decide) (by simp [Kind.allows]) (by rfl)]
+  have hm : Kind.int.mult = 1 := rfl
+  have h2 : (i ≥ 2 ^ (n - 1) ∨ i < -(2 ^ (n - 1) : Int)) := by omega
+  by_cases hn : n = 0
+  · simp [buildDT, setFn, DT.bitlen, buildInt, hm, hn]
+  · simp [buildDT, setFn, DT.bitlen, buildInt, valToInt, hm, int2bits, hn, h2]
+
+theorem bits_wrong_size' (kw : Kw) (n : Nat) (x : Bits) (h : x.length ≠ n) :
+    tokBits kw ⟨"bits".toList, some (.int n), none⟩ (some (.bits x)) = .error .value := by
+  unfold tokBits
+  simp [resolveLen, resolveVal, bitsCtor]
+  omega
+
+theorem bytes_wrong_size' (kw : Kw) (n : Nat) (x : Bits) (h : x.length ≠ 8 * n) :
+    tokBits kw ⟨"bytes".toList, some (.int n), none⟩ (some (.bytes x)) = .error .value := by
+  rw [tokBits_plain_fixed kw _ _ _ .bytes (by decide) (by decide) (by decide) (by simp [Kind.allows]) (by rfl)]
+  have hm : Kind.bytes.mult = 8 := rfl
+  have : ¬ ((x.length : Int) = n * 8) := by omega
+  simp [buildDT, setFn, DT.bitlen, buildBytes, hm, this]
+
+
+theorem tokBits_value_eq (kw : Kw) (name : Str) (len : Option LenV) (s : Str) (x : Val) (p : Option Val)
+    (hx : resolveVal kw (some s) = some x) (hdict : ¬ (kw.has name = true ∧ len = none)) :
+    tokBits kw ⟨name, len, some s⟩ p = tokBits kw ⟨name, len, none⟩ (some x) := by
+  unfold tokBits
+  have h1 : ¬ (kw.has name = true ∧ len.isNone = true ∧ (none : Option Str).isNone = true) :=
+    fun ⟨a, b, _⟩ => hdict ⟨a, by simpa using b⟩
+  have h2 : ¬ (kw.has name = true ∧ len.isNone = true ∧ (some s).isNone = true) := fun ⟨_, _, c⟩ => by simp at c
+  simp only [h1, h2, if_false, hx]
+  simp [resolveVal]
+
+theorem needsValue_none (kw : Kw) (name : Str) (len : Option LenV)
+    (hpad : name ≠ "pad".toList) (hdict : ¬ (kw.has name = true ∧ len = none)) :
+    Tok.needsValue kw ⟨name, len, none⟩ = true := by
+  have h1 : ¬ (kw.has name = true ∧ len.isNone = true ∧ (none : Option Str).isNone = true) :=
+    fun ⟨a, b, _⟩ => hdict ⟨a, by simpa using b⟩
+  have hp' : "pad".toList = ['p', 'a', 'd'] := by decide
+  rw [hp'] at hpad
+  simp only [Tok.needsValue, h1, if_false]
+  simp [hpad]
+
+theorem value_eq_separate (kw : Kw) (name : Str) (len : Option LenV) (s : Str) (x : Val) (ts : List Tok) (vs : List Val)
+    (hpad : name ≠ "pad".toList) (hx : resolveVal kw (some s) = some x) (hdict : ¬ (kw.has name = true ∧ len = none)) :
+    packT kw (⟨name, len, some s⟩ :: ts) vs = packT kw (⟨name, len, none⟩ :: ts) (x :: vs) := by
+  have hn1 : Tok.needsValue kw ⟨name, len, some s⟩ = false := by simp [Tok.needsValue]
+  have hn2 := needsValue_none kw name len hpad hdict
+  conv => lhs; rw [packT.eq_def]
+  conv => rhs; rw [packT.eq_def]
+  simp only [hn1, hn2, Bool.false_eq_true, if_false, if_true, tokBits_value_eq kw name len s x none hx hdict]
+  cases hr : resolveLen kw len with
+  | error e =>
+    simp only
+    unfold tokBits
+    have h1 : ¬ (kw.has name = true ∧ len.isNone = true ∧ (none : Option Str).isNone = true) :=
+      fun ⟨a, b, _⟩ => hdict ⟨a, by simpa using b⟩
+    simp only [h1, if_false, hr]
+  | ok l => rfl
+
+theorem int_text_eq_int' (s : Str) (i : Int) (h : pyInt? s = some i) : valToInt (.str s) = valToInt (.int i) := by
+  simp [valToInt, h]
+
+theorem packParts_index (kw : Kw) (ts : List Tok) (vs : List Val) (ps : List Bits) (h : packParts kw ts vs = .ok ps) :
+    ps.length = ts.length ∧ ∀ (i : Nat) (t : Tok) (p : Bits), ts[i]? = some t → ps[i]? = some p → ∃ v, tokBits kw t v = .ok p := by
+  induction ts generalizing vs ps with
+  | nil =>
+    cases vs <;> simp [packParts] at h
+    subst h; simp
+  | cons t ts ih =>
+    rw [packParts.eq_def] at h
+    simp only at h
+    cases hn : t.needsValue kw with
+    | true =>
+      simp only [hn, if_true] at h
+      cases hr : resolveLen kw t.len with
+      | error e => simp [hr] at h
+      | ok l =>
+        simp only [hr] at h
+        cases vs with
+        | nil => simp at h
+        | cons v vs' =>
+          simp only at h
+          cases hb : tokBits kw t (some v) with
+          | error e => simp [hb] at h
+          | ok tb =>
+            simp only [hb] at h
+            cases hp : packParts kw ts vs' with
+            | error e => simp [hp, Except.map] at h
+            | ok r =>
+              simp only [hp, Except.map, Except.ok.injEq] at h
+              subst h
+              obtain ⟨hl, hi⟩ := ih vs' r hp
+              refine ⟨by simp [hl], ?_⟩
+              intro i t' p ht hp'
+              cases i with
+              | zero => simp at ht hp'; subst ht; subst hp'; exact ⟨_, hb⟩
+              | succ i => simp at ht hp'; exact hi i t' p ht hp'
+    | false =>
+      simp only [hn, Bool.false_eq_true, if_false] at h
+      cases hb : tokBits kw t none with
+      | error e => simp [hb] at h
+      | ok tb =>
+        simp only [hb] at h
+        cases hp : packParts kw ts vs with
+        | error e => simp [hp, Except.map] at h
+        | ok r =>
+          simp only [hp, Except.map, Except.ok.injEq] at h
+          subst h
+          obtain ⟨hl, hi⟩ := ih vs r hp
+          refine ⟨by simp [hl], ?_⟩
+          intro i t' p ht hp'
+          cases i with
+          | zero => simp at ht hp'; subst ht; subst hp'; exact ⟨_, hb⟩
+          | succ i => simp at ht hp'; exact hi i t' p ht hp'
+
+theorem pack_length' (kw : Kw) (ts : List Tok) (vs : List Val) (b : Bits) (h : packT kw ts vs = .ok b) :
+    ∃ ps : List Bits, packParts kw ts vs = .ok ps ∧ b = ps.flatten ∧ ps.length = ts.length ∧
+      b.length = (ps.map List.length).sum ∧
+      ∀ (i : Nat) (t : Tok) (p : Bits) (n : Int), ts[i]? = some t → ps[i]? = some p → declLen kw t = some n →
+        (p.length : Int) = n := by
+  rw [packT_eq_parts'] at h
+  cases hp : packParts kw ts vs with
+  | error e => simp [hp, Except.map] at h
+  | ok ps =>
+    simp only [hp, Except.map, Except.ok.injEq] at h
+    obtain ⟨hl, hi⟩ := packParts_index kw ts vs ps hp
+    refine ⟨ps, rfl, h.symm, hl, by rw [← h, List.length_flatten], ?_⟩
+    intro i t p n ht hpp hd
+    obtain ⟨v, hv⟩ := hi i t p ht hpp
+    exact tokBits_declared_length' kw t v p n hv hd
+
+theorem pack_length_fixed' (kw : Kw) (ts : List Tok) (vs : List Val) (b : Bits) (h : packT kw ts vs = .ok b)
+    (hfix : ∀ t ∈ ts, (declLen kw t).isSome) :
+    (b.length : Int) = (ts.map fun t => (declLen kw t).getD 0).sum := by
+  induction ts generalizing vs b with
+  | nil => cases vs <;> simp [packT] at h; subst h; simp
+  | cons t ts ih =>
+    have ht := hfix t (by simp)
+    obtain ⟨n, hn⟩ := Option.isSome_iff_exists.mp ht
+    have hrest : ∀ t ∈ ts, (declLen kw t).isSome := fun t' h' => hfix t' (by simp [h'])
+    rcases packT_ok_cons kw t ts vs b h with ⟨-, v, vs', l, tb, r, rfl, -, hb, hp, rfl⟩ | ⟨-, tb, r, hb, hp, rfl⟩
+    · have := tokBits_declared_length' kw t _ tb n hb hn
+      simp [hn, ih vs' r hp hrest, ← this]
+    · have := tokBits_declared_length' kw t _ tb n hb hn
+      simp [hn, ih vs r hp hrest, ← this]
+
+theorem pass1_has (ds : List DT) (a : Int) (h : ∀ d ∈ ds, d.stretchy = false ∧ d.kind.variable = false) :
+    pass1 ds true a = .ok (true, a + (ds.map fun d => d.bitlen.getD 0).sum) := by
+  induction ds generalizing a with
+  | nil => simp [pass1]
+  | cons d ds ih =>
+    obtain ⟨h1, h2⟩ := h d (by simp)
+    rw [pass1.eq_def]
+    simp only [h1, h2, Bool.false_eq_true, if_false, if_true]
+    rw [ih _ (fun d' hd' => h d' (by simp [hd']))]
+    simp [Int.add_assoc]
+
+theorem pass1_nohas (ds : List DT) (a : Int) (h : ∀ d ∈ ds, d.stretchy = false) :
+    pass1 ds false a = .ok (false, a) := by
+  induction ds generalizing a with
+  | nil => simp [pass1]
+  | cons d ds ih =>
+    rw [pass1.eq_def]
+    simp only [h d (by simp), Bool.false_eq_true, if_false]
+    exact ih _ (fun d' hd' => h d' (by simp [hd']))
+
+theorem pass1_two_stretchy' (l1 l2 l3 : List DT) (d1 d2 : DT) (h1 : d1.stretchy = true) (h2 : d2.stretchy = true)
+    (hl1 : ∀ d ∈ l1, d.stretchy = false) (hl2 : ∀ d ∈ l2, d.stretchy = false ∧ d.kind.variable = false) :
+    pass1 (l1 ++ d1 :: l2 ++ d2 :: l3) false 0 = .error .bitstring := by
+  have hA : ∀ (l : List DT) (a : Int), (∀ d ∈ l, d.stretchy = false ∧ d.kind.variable = false) →
+      pass1 (l ++ d2 :: l3) true a = .error .bitstring := by
+    intro l
+    induction l with
+    | nil => intro a _; rw [List.nil_append, pass1.eq_def]; simp [h2]
+    | cons d l ih =>
+      intro a hl
+      obtain ⟨x, y⟩ := hl d (by simp)
+      rw [List.cons_append, pass1.eq_def]
+      simp only [x, y, Bool.false_eq_true, if_false, if_true]
+      exact ih _ (fun d' hd' => hl d' (by simp [hd']))
+  have hB : ∀ (l : List DT) (a : Int), (∀ d ∈ l, d.stretchy = false) →
+      pass1 (l ++ d1 :: l2 ++ d2 :: l3) false a = .error .bitstring := by
+    intro l
+    induction l with
+    | nil =>
+      intro a _
+      rw [List.nil_append, List.cons_append, pass1.eq_def]
+      simp only [h1, if_true, Bool.false_eq_true, if_false]
+      exact hA l2 a hl2
+    | cons d l ih =>
+      intro a hl
+      rw [List.cons_append, List.cons_append, pass1.eq_def]
+      simp only [hl d (by simp), Bool.false_eq_true, if_false]
+      have := ih a (fun d' hd' => hl d' (by simp [hd']))
+      simpa using this
+  exact hB l1 0 hl1
+
+
 end BM.C05
